@@ -45,7 +45,7 @@ M_PROC       = 'task.proc'
 M_SHELL      = 'task.shell'
 M_MASTER     = 'raptor.master'
 M_WORKER     = 'raptor.worker'
-M_AGENT_SVC  = 'agent.service'        # constant exists, mode is not documented
+M_AGENT_SVC  = 'agent.service'        # constant exists, mode is not in the docstring
 
 # "required attributes" per mode, docstring of TaskDescription (attribute `mode`)
 REQUIRED = {
@@ -59,8 +59,12 @@ REQUIRED = {
     M_PROC      : 'executable',
     M_MASTER    : None,
     M_WORKER    : None,
+    # not in the docstring; grounded in the only caller: Agent_0._launch_service_task sets this mode
+    # on the services of the agent config and wraps `td.executable` into the service wrapper's
+    # command line ("exactly like" task.service) - a service without executable cannot be started
+    M_AGENT_SVC : 'executable',
 }
-MODES = list(REQUIRED) + [M_AGENT_SVC]
+MODES = list(REQUIRED)
 
 # deprecated name -> replacement; None = documented as "deprecated and ignored"
 DEPRECATED = {
